@@ -87,6 +87,7 @@ func runC07(p *Prog, r *Report) {
 	c.checkProductions(prods)
 	c.rejectionGuards(prods)
 	c.literalRank(prods)
+	c7CommentTerminator(p, r)
 }
 
 func (c *c7ctx) isNodeT(t types.Type) bool { return types.Identical(t, c.nodeT) }
@@ -1076,4 +1077,129 @@ func sameCell(a, b ssa.Value) bool {
 		return v
 	}
 	return cellOf(a) == cellOf(b)
+}
+
+// R7.7: a scanner that looks for the two-character terminator `*/` must treat *every* character it reads as a possible
+// first character of the terminator. In SSA terms: inside the search loop, every value returned by the character
+// reader reaches (through the loop-carried phis) a comparison with '*'. A loop that, after a '*', reads one character,
+// tests it only against '/', and then reads the next one loses the terminator in `**/`.
+func c7CommentTerminator(p *Prog, r *Report) {
+	const rule = "R7.7-comment-terminator"
+	n := 0
+	for _, fn := range p.Funcs {
+		pp := fnPkgPath(fn)
+		if (pp != pParser && pp != pSchemaPar) || fn.Signature.Recv() == nil || fn.Parent() != nil {
+			continue
+		}
+		star, slash := false, false
+		forEachInstr(fn, func(in ssa.Instruction) {
+			if bo, ok := in.(*ssa.BinOp); ok && (bo.Op == token.EQL || bo.Op == token.NEQ) {
+				for _, o := range []ssa.Value{bo.X, bo.Y} {
+					if k, ok := constInt(o); ok {
+						if k == '*' {
+							star = true
+						}
+						if k == '/' {
+							slash = true
+						}
+					}
+				}
+			}
+		})
+		if !star || !slash {
+			continue
+		}
+		loops := loopsOf(fn)
+		if len(loops) == 0 {
+			continue
+		}
+		recvT := namedOf(fn.Signature.Recv().Type())
+		for _, cl := range callsIn(fn) {
+			call, ok := cl.(*ssa.Call)
+			if !ok {
+				continue
+			}
+			g := call.Call.StaticCallee()
+			if g == nil || g.Signature.Recv() == nil || namedOf(g.Signature.Recv().Type()) != recvT || g.Signature.Results().Len() != 1 || basicKind(g.Signature.Results().At(0).Type()) != types.Int32 || g.Signature.Params().Len() != 0 {
+				continue
+			}
+			l := innermostLoop(loops, call.Block())
+			if l == nil {
+				continue
+			}
+			// a pure advance (result unused) carries no character
+			if refs := call.Referrers(); refs == nil || len(*refs) == 0 {
+				continue
+			}
+			// only loops that test for the terminator: a comparison with '/' made under a successful comparison with '*'
+			loopHasStar := false
+			for b := range l.Body {
+				if innermostLoop(loops, b) != l {
+					continue // the test belongs to a nested loop
+				}
+				for _, in := range b.Instrs {
+					bo, ok := in.(*ssa.BinOp)
+					if !ok || bo.Op != token.EQL {
+						continue
+					}
+					isSlash := false
+					for _, o := range []ssa.Value{bo.X, bo.Y} {
+						if k, ok := constInt(o); ok && k == '/' {
+							isSlash = true
+						}
+					}
+					if !isSlash {
+						continue
+					}
+					for _, gd := range guardsAt(b) {
+						fg := flattenGuard(gd)
+						if gb, ok := fg.Cond.(*ssa.BinOp); ok && gb.Op == token.EQL && fg.Pol {
+							for _, o := range []ssa.Value{gb.X, gb.Y} {
+								if k, ok := constInt(o); ok && k == '*' {
+									loopHasStar = true
+								}
+							}
+						}
+					}
+				}
+			}
+			if !loopHasStar {
+				continue
+			}
+			n++
+			reaches := false
+			seen := map[ssa.Value]bool{}
+			var rec func(v ssa.Value)
+			rec = func(v ssa.Value) {
+				if seen[v] || reaches {
+					return
+				}
+				seen[v] = true
+				if refs := v.Referrers(); refs != nil {
+					for _, rf := range *refs {
+						switch x := rf.(type) {
+						case *ssa.BinOp:
+							for _, o := range []ssa.Value{x.X, x.Y} {
+								if k, ok := constInt(o); ok && k == '*' {
+									reaches = true
+								}
+							}
+						case *ssa.Phi:
+							rec(x)
+						case *ssa.ChangeType:
+							rec(x)
+						case *ssa.Convert:
+							rec(x)
+						}
+					}
+				}
+			}
+			rec(call)
+			r.Check(reaches, rule, fnQual(fn)+":read@"+itoa(instrIndex(call))+"b"+itoa(call.Block().Index), p.pos(call.Pos()), "the character read here is tested as a possible start of the terminator",
+				"in "+fnShort(fn)+" a character read inside the loop that looks for `*/` is never compared with '*' (it is only tested as the second character, or not at all) before the next one is read: in `**/` the second '*' is consumed as \"the character after a star\" and the comment is not terminated there")
+		}
+	}
+	if n == 0 {
+		r.Undec(rule, "comment-scanners", "-", "no loop searching for the `*/` terminator was recognised (anchors vanished)")
+	}
 }
